@@ -18,6 +18,9 @@ RULES = {
     "R01.5": "genesis: instantiate saves as total_supply the accumulator of exactly the per-row amounts it saves to BALANCES, "
              "starting from zero, and the rows' addresses are validated unique before the loop",
     "R01.6": "no other writer: entry points other than execute/instantiate never write BALANCES nor change total_supply",
+    "R01.7": "what is reported is what is stored: the TokenInfo query answers the stored TOKEN_INFO.total_supply and the Balance query "
+             "the stored BALANCES[validated address] (zero when absent), unadjusted - the property is about the supply the token "
+             "reports and the balances it lists",
     "A-OVF": "release profile keeps overflow-checks = true",
 }
 
@@ -168,6 +171,39 @@ def run(ctx):
                     good = d is not None and d.nf is not None and not d.nf.atoms and not d.nf.const
                     ctx.ob("R01.6", "%s/TOKEN_INFO" % name, good, detail="%s changes total_supply" % name, sites=[e.site])
         ctx.ob("R01.6", "%s" % name, True, sample={"entry": fn, "writes_to_balances": 0})
+    # ---- what is reported: the supply and balances a user sees are the stored ones
+    if "query" in eps:
+        qg = dispatch(ctx.summarise(eps["query"]))
+        n_q = 0
+        for variant, want_field, struct_field in (("TokenInfo", "total_supply", "total_supply"), ("Balance", None, "balance")):
+            for p in qg.get(variant, []):
+                if p.is_err():
+                    continue
+                got = None
+                for x in walk(p.ret):
+                    if x[0] == "struct" and dict(x[2]).get(struct_field) is not None and x[1].endswith(("TokenInfoResponse", "BalanceResponse")):
+                        got = dict(x[2])[struct_field]
+                n_q += 1
+                if variant == "TokenInfo":
+                    lf = loaded_from(got[1]) if got is not None and got[0] == "field" and got[2] == "total_supply" else None
+                    good = lf is not None and lf[0] == TOK
+                else:
+                    g = got
+                    if g is not None and g[0] == "call" and g[1] in ("unwrap_or", "unwrap_or_default") and g[2]:
+                        g = ("vfield", g[2][0], "Some", "0") if g[2][0][0] != "vfield" or g[2][0][2] != "Some" else g[2][0]
+                    lf = loaded_from(g) if g is not None else None
+                    if lf is None and g is not None and (g[0] == "default" or g == ("lit", 0) or (g[0] == "call" and g[1].endswith("zero"))):
+                        # `None => Uint128::zero()` on the path that found no entry
+                        for c in p.conds:
+                            if c[1] == "None" and loaded_from(("vfield", c[0], "Some", "0")):
+                                lf = loaded_from(("vfield", c[0], "Some", "0"))
+                    addr = ("vfield", ("call", "cosmwasm_std::Api::addr_validate", (("field", ("param", "deps"), "api"),
+                                                                                    ("vfield", ("param", "msg"), "Balance", "address"))), "Ok", "0")
+                    good = lf is not None and lf[0] == BAL and lf[1] == addr
+                ctx.ob("R01.7", "query/%s" % variant, good, sample={"reported": show(got)[:160] if got else None},
+                       detail="%s reports %s, not the stored %s" % (variant, show(got)[:200] if got else "nothing recognisable",
+                                                                   "TOKEN_INFO.total_supply" if variant == "TokenInfo" else "BALANCES[address] (zero when absent)"))
+        ctx.floor("R01.7", "TokenInfo / Balance answers", n_q, 2)
     # helpers reachable from no entry point are not transactions; but public functions writing BALANCES
     # that are not reached are listed for the reader
     ctx.floor("R01.1", "balance-moving ExecuteMsg variants", len([v for v in moving if v in EXPECT]), 7)
@@ -183,6 +219,12 @@ def check_genesis(p, ts, balw, BAL, ctx=None):
         if ts[0] == "loopvar":
             lk, var = ts[1], ts[2]
             ent = [e for e in p.effects if e.kind == "loop_enter" and e.name == lk]
+            stp = [e for e in p.effects if e.kind == "loop_step" and e.name == lk]
+            adv = [e for e in stp if e.value.get(var) is not None and e.value.get(var) != ("loopvar", lk, var, 0)]
+            if adv:
+                # an iteration that adds its row to the supply but creates no balance (a `continue` past the save)
+                return False, "an iteration adds %s to the supply accumulator without saving a balance for that row" \
+                    % show(adv[0].value.get(var))[:160]
             if ent and ent[0].value.get(var) == ("lit", 0):
                 return True, None
             return False, "accumulator %s does not start from zero: %s" % (var, show(ent[0].value.get(var)) if ent else "?")
